@@ -121,7 +121,7 @@ fn candidates(focus: F2) -> &'static Vec<u32> {
         let all: Vec<&FnDesc> = c.funcs.iter().filter(|d| simple_sig(d)).collect();
         let ids = |p: &dyn Fn(&FnDesc) -> bool| -> Vec<u32> { all.iter().filter(|d| p(d)).map(|d| d.id).collect() };
         let plain = |d: &FnDesc| !d.is_result() && !d.cache_if && !d.invalidate_on;
-        m.insert("C01", ids(&|d| plain(d) && matches!(d.family, "grid" | "tlru" | "edge")));
+        m.insert("C01", ids(&|d| plain(d) && matches!(d.family, "grid" | "tlru" | "edge" | "tmpl")));
         m.insert("C03", ids(&|d| plain(d) && d.limit.is_none() && d.ttl.is_none() && d.max_memory.is_none() && matches!(d.family, "grid" | "concu")));
         m.insert("C04", ids(&|d| plain(d) && d.limit.is_some() && matches!(d.family, "grid" | "tlru" | "conc" | "edge" | "bulk")));
         m.insert("C05", ids(&|d| plain(d) && d.max_memory.is_some() && matches!(d.family, "grid" | "conc" | "edge")));
@@ -131,10 +131,10 @@ fn candidates(focus: F2) -> &'static Vec<u32> {
             "C08",
             ids(&|d| plain(d) && matches!(d.effective_policy(), Policy::Lfu | Policy::Arc | Policy::Tlru) && d.flavour != Flavour::Thread && d.limit.is_some() && d.ttl != Some(1) && matches!(d.family, "grid" | "tlru")),
         );
-        m.insert("C09", ids(&|d| d.family == "res"));
+        m.insert("C09", ids(&|d| d.family == "res" || (d.family == "tmpl" && d.is_result())));
         m.insert("C10", ids(&|d| d.family == "cif" || (d.family == "inv" && d.cache_if)));
         m.insert("C11", ids(&|d| d.family == "inv"));
-        m.insert("C12", ids(&|d| d.flavour != Flavour::Thread && matches!(d.family, "reg" | "conc" | "concu")));
+        m.insert("C12", ids(&|d| d.flavour != Flavour::Thread && matches!(d.family, "reg" | "conc" | "concu" | "depg")));
         m.insert("C13", ids(&|d| d.flavour != Flavour::Thread && ((d.family == "reg") || (d.family == "conc" && d.ttl.is_none()) || (plain(d) && matches!(d.family, "grid" | "bulk") && (d.limit.is_some() || d.max_memory.is_some()) && d.ttl.is_none()))));
         m.insert("C15", ids(&|d| d.flavour != Flavour::Thread && matches!(d.family, "reg" | "grid" | "concu" | "res" | "inv")));
         m.insert("C16", ids(&|_| true));
@@ -161,6 +161,22 @@ pub fn decode(bytes: &[u8], focus: F2, tier: Tier) -> MacroCase {
         let id = cands[d.choose16(cands.len())];
         if !fns.contains(&id) {
             fns.push(id);
+        }
+    }
+    if focus == F2::C12 && fns.iter().any(|id| corpus.by_id(*id).family == "depg") {
+        // a dependency graph is interesting as a whole: take every cache of that graph (mutual
+        // pair, chain, self-dependency), in a generated first-use order
+        let fl = corpus.by_id(*fns.iter().find(|id| corpus.by_id(**id).family == "depg").unwrap()).flavour;
+        let mut group: Vec<u32> = corpus.funcs.iter().filter(|d| d.family == "depg" && d.flavour == fl).map(|d| d.id).collect();
+        let rot = d.choose(group.len());
+        group.rotate_left(rot);
+        if d.chance(1, 2) {
+            group.reverse();
+        }
+        for g in group {
+            if !fns.contains(&g) {
+                fns.push(g);
+            }
         }
     }
     if let Some(bid) = fns.iter().copied().find(|id| corpus.by_id(*id).family == "bulk") {
